@@ -371,6 +371,13 @@ def toast_pixel_for_point(depth, lat, lon, coordsys=ToastCoordinateSystem.ASTRON
     # that is closest to the input position.
 
     lons, lats = toast_tile_get_coords(tile)
+
+    # The longitudes of the tile's pixels can be expressed on a different branch
+    # than the input longitude (e.g. in the range [-pi, pi] rather than [0,
+    # 2pi]). We compare and fit longitudes as plain numbers below, so bring
+    # them all to within pi of the longitude of interest.
+    lons = lon + ((lons - lon + np.pi) % TWOPI - np.pi)
+
     dist2 = (lons - lon) ** 2 + (lats - lat) ** 2
     min_y, min_x = np.unravel_index(np.argmin(dist2), (256, 256))
 
